@@ -211,7 +211,24 @@ func (c *Ctx) checkNewDirectiveType(t *Tables) {
 			return
 		}
 		usesSS, usesExcl, usesResp := false, false, false
-		ast.Inspect(d.Body, func(n ast.Node) bool {
+		// the function together with the helpers of its package it refers to (called, or handed to sync.Once.Do)
+		seenFn := map[*types.Func]bool{f: true}
+		var visit func(body *ast.BlockStmt, depth int)
+		var inspect func(n ast.Node) bool
+		visit = func(body *ast.BlockStmt, depth int) {
+			ast.Inspect(body, func(n ast.Node) bool {
+				if id, ok := n.(*ast.Ident); ok && depth < 3 {
+					if g, ok := pk.TypesInfo.Uses[id].(*types.Func); ok && g.Pkg() == pk.Types && !seenFn[g] && g.Name() != "IsHTTPResponseCode" {
+						seenFn[g] = true
+						if gd := c.P.Decl(g); gd != nil && gd.Body != nil {
+							visit(gd.Body, depth+1)
+						}
+					}
+				}
+				return inspect(n)
+			})
+		}
+		inspect = func(n ast.Node) bool {
 			switch x := n.(type) {
 			case *ast.Ident:
 				if v, ok := pk.TypesInfo.Uses[x].(*types.Var); ok && v.Parent() == scope {
@@ -229,7 +246,8 @@ func (c *Ctx) checkNewDirectiveType(t *Tables) {
 				}
 			}
 			return true
-		})
+		}
+		visit(d.Body, 0)
 		if usesSS && usesExcl && usesResp {
 			r.Ok("C13-REACHABLE", fname, "ranges over the spelling table, excludes "+t.RespConst+", falls back to IsHTTPResponseCode", c.P.Pos(d.Pos()))
 		} else {
